@@ -29,6 +29,7 @@ type nodeInfo struct {
 	ordered bool
 	weak    bool
 	unit    bool
+	big     bool // downstream of a large fan-out: no further large fan-outs
 }
 
 var allGenOps = []string{"map", "map", "filter", "flatmap", "fold", "head", "reduce", "cogroup", "reshuffle", "repartition", "reshard", "prefixed", "writerfunc", "mapkv"}
@@ -88,6 +89,11 @@ func (g *gen) add(n PNode, ni nodeInfo) int {
 		switch n.Op {
 		case "map", "filter", "flatmap":
 			n.Ctx = true
+		}
+	}
+	for _, i := range n.In {
+		if g.info[i].big {
+			ni.big = true
 		}
 	}
 	g.sp.Nodes = append(g.sp.Nodes, n)
@@ -195,7 +201,11 @@ func (g *gen) addOp(op string, in int, last bool) bool {
 		for j := range out {
 			src[j] = -1
 		}
-		add(PNode{Op: "flatmap", In: []int{in}, Out: out, Src: src, Salt: rnd.Uint64(), Mod: rnd.Pick(0, 3, 10, 100), P: rnd.Pick(0, 1, 3, 3, 200)}, nodeInfo{kinds: out, prefix: 1, shards: ii.shards, ordered: ii.ordered})
+		fan := rnd.Pick(0, 1, 3, 3, 200)
+		if ii.big && fan > 3 {
+			fan = 3
+		}
+		add(PNode{Op: "flatmap", In: []int{in}, Out: out, Src: src, Salt: rnd.Uint64(), Mod: rnd.Pick(0, 3, 10, 100), P: fan}, nodeInfo{kinds: out, prefix: 1, shards: ii.shards, ordered: ii.ordered, big: ii.big || fan > 3})
 	case "fold":
 		// BUG(marius) in the Fold doc: slice grouping (prefix>1) is unsupported
 		if nk < 2 || ii.prefix != 1 || !(ii.kinds[0] == "string" || ii.kinds[0] == "int" || ii.kinds[0] == "int64") {
